@@ -3024,8 +3024,11 @@ class Entity(MutableMapping[str, str]):
             return
         key = key.casefold()
         if key == 'targetname':
-            _remove_copyset(self.map.by_target, self._keys.get('targetname', None), self)
-            self.map.by_target[None].add(self)
+            # The key may be stored with any casing, and the dict is keyed by the casefolded name.
+            _remove_copyset(self.map.by_target, self['targetname'].casefold() or None, self)
+            # Entities which aren't in the map must stay out of the lookup.
+            if self in self.map.entities or self is self.map.spawn:
+                self.map.by_target[None].add(self)
 
         if key == 'classname':
             raise KeyError('Classnames cannot be deleted!')
